@@ -365,7 +365,10 @@ func init() {
 					}
 				}})
 			// large files: every byte of text, up to several MiB, through the file entry points
-			sizes := []int{4095, 4096, 4097, 65535, 65536, 65537, 1<<20 - 7, 1 << 20, 1<<20 + 1, 3<<20 + 5}
+			sizes := []int{4095, 4096, 4097, 65535, 65536, 65537, 1<<20 - 7, 1 << 20, 1<<20 + 1, 3<<20 + 5, 1<<24 + 33}
+			if tier == core.Thorough {
+				sizes = append(sizes, 1<<25+1, 1<<26+7)
+			}
 			secs = append(secs, core.Section{Name: "large-files", Exhaustive: true, N: len(sizes),
 				Run: func(c *core.Ctx, i int) {
 					n := sizes[i]
